@@ -284,7 +284,7 @@ fn judge_error(
         bad(rep, format!("C13:response-status-differs:{cname}"), json!({"expected": want_status}));
     }
     let ct: Vec<&Vec<u8>> = headers.iter().filter(|(n, _)| n == "content-type").map(|(_, v)| v).collect();
-    if ct.len() != 1 || !ct[0].eq_ignore_ascii_case(b"application/json") {
+    if ct.len() != 1 || !crate::gen::is_json_media_type(ct[0].as_slice()) {
         bad(rep, "C13:error-content-type-not-json".into(), json!({"content_type": ct.iter().map(|v| String::from_utf8_lossy(v).to_string()).collect::<Vec<_>>()}));
     }
     match jsonp::parse(body) {
